@@ -164,6 +164,13 @@ func (iv *Value) ValueFrom(value any) {
 			rv = rv.Elem()
 		}
 
+		if rv.CanUint() {
+			// unsigned kinds cannot go through rv.Int() below
+			iv.ItemType = ItemTypeInteger
+			iv.ItemValue = strconv.FormatUint(rv.Uint(), 10)
+			return
+		}
+
 		switch rv.Kind() {
 		case reflect.Slice, reflect.Array:
 			iv.ItemType = ItemTypeArray
